@@ -345,3 +345,7 @@ def frames(model):
         # asserted for the first frame, the CONECT bonds for every frame (all models share the serial numbers)
         return [_expect(fr, with_title=(k == 0)) for k, fr in enumerate(model["frames"])]
     return [_expect(fr) for fr in model["frames"]]
+
+
+# Classes that are generated but NOT asserted by C03 (triage decisions, see DESIGN.md section 7): class -> reason
+NOT_ASSERTED = {'ter_records': 'CONECT refers to serial numbers that TER records also consume; the reader maps serial-1 to the atom index (reader design, judgement)', 'models_conect': 'CONECT section after ENDMDL: reader stops at the first END* record (judgement about multi-model files)'}
